@@ -1,7 +1,7 @@
 """C17 -- producer / consumer processes.
 
     python [-O] -m vf.c17_worker produce <tier> <cfg> <dir> [selection]
-    python [-O] -m vf.c17_worker consume <tier> <cfg> <producer-cfg> <dir> [selection]
+    python [-O] -m vf.c17_worker consume <tier> <cfg> <producer-cfg,...> <dir> [selection]
 
 selection = all | shard:<k>:<n> | entry:<pool entry name>
 
@@ -11,7 +11,7 @@ pool entry after every producer history under every protocol, grouped by identic
 persistent-hash digests) and `prod-<cfg>.json` (counters, producer-side failures).  The consumer
 reads the producer file, runs every history of the consumer state graph (vf.c17_pool) on every
 distinct pickle and writes
-`cons-<producer-cfg>--<cfg>--<selection>.json`.
+`cons-<cfg>.json`.
 
 No `assert` statements: this module also runs under -O.
 """
@@ -187,7 +187,7 @@ def produce(tier, cfg, outdir, sel="all"):
     entries = select(P.pool(tier), sel)
     result = {}
     fails = []
-    n_hist = n_ops = 0
+    n_hist = n_ops = n_refused = 0
     for e in entries:
         compiled = e["family"] == "compiled"
         if compiled:
@@ -233,6 +233,10 @@ def produce(tier, cfg, outdir, sel="all"):
                 except RecursionError:
                     raise
                 except Exception as ex:  # noqa: BLE001
+                    if op == "pickle" and e.get("may_refuse") \
+                            and isinstance(ex, NotImplementedError):
+                        n_refused += 1      # backend-only old-style class: refusal is fine
+                        continue
                     fails.append(dict(entry=e["name"], kind=f"producer:raises:{op}:{exc_name(ex)}",
                                       phist=hi, proto=proto, detail=repr(ex)[:200]))
                     continue
@@ -249,7 +253,7 @@ def produce(tier, cfg, outdir, sel="all"):
         pickle.dump(result, fh, protocol=4)
     os.replace(os.path.join(outdir, f"prod-{cfg}.pkl.tmp"), os.path.join(outdir, f"prod-{cfg}.pkl"))
     report = dict(cfg=cfg, entries=len(entries), producer_histories=n_hist, producer_ops=n_ops,
-                  fails=fails, str_hash=hash("x"))
+                  fails=fails, str_hash=hash("x"), refused_by_pickle=n_refused)
     with open(os.path.join(outdir, f"prod-{cfg}.json"), "w") as fh:
         json.dump(report, fh)
 
@@ -419,12 +423,22 @@ def select(entries, sel):
 
 
 class Consumer:
-    def __init__(self, tier, cfg, pcfg, prod):
-        self.tier, self.cfg, self.pcfg, self.prod = tier, cfg, pcfg, prod
+    """Consumes the pickles of SEVERAL producer configurations in one consumer process.  Pickles
+    with identical bytes (normally: the same entry, protocol and history class from every
+    producer) are executed once -- this process's behaviour is a function of the bytes -- and the
+    outcome stands for every (producer, producer history) that delivered those bytes."""
+
+    def __init__(self, tier, cfg, prods):
+        self.tier, self.cfg, self.prods = tier, cfg, prods       # prods: {pcfg: producer dict}
         self.by_name = P.pool_by_name(tier)
         self.memo = {}
+        self.consumed = []          # (pcfg, entry name) with at least one pickle consumed
         self.counters = dict(histories=0, transitions=0, states=0, pickles_distinct=0,
+                             pair_pickles_covered=0, pair_histories_covered=0,
                              producer_histories_covered=0, digests=0, entries=0)
+
+    def has(self, name):
+        return any(name in pr for pr in self.prods.values())
 
     def evaluate(self, e, count=True):
         """-> {kind: failure record} for one pool entry (memoised)."""
@@ -433,20 +447,24 @@ class Consumer:
         fails = {}
         self.memo[e["name"]] = fails
         counters = self.counters if count else dict.fromkeys(self.counters, 0)
-        rec = self.prod.get(e["name"])
-        if rec is None:
-            return fails        # the producer did not produce it (and said why)
+        recs = {pc: pr[e["name"]] for pc, pr in self.prods.items() if e["name"] in pr}
+        if not recs:
+            return fails        # no producer produced it (and said why)
 
-        def fail(kind, detail, proto=None, phists=(), order=None):
+        def fail(kind, detail, proto=None, sources=(), order=None, pcfg=None):
             f = fails.get(kind)
             if f is None:
                 f = fails[kind] = dict(
                     entry=e["name"], kind=kind, detail=detail, n=0, protos=set(), phists=set(),
-                    order=None, orders_failed=0)
-            f["n"] += 1
+                    pcfgs=set(), order=None, orders_failed=0)
+            f["n"] += max(1, len(sources))
             if proto is not None:
                 f["protos"].add(proto)
-            f["phists"].update(phists)
+            for pc, phists in sources:
+                f["pcfgs"].add(pc)
+                f["phists"].update(phists)
+            if pcfg is not None:
+                f["pcfgs"].add(pcfg)
             if order is not None:
                 f["orders_failed"] += 1
                 if f["order"] is None or (len(order), order) < (len(f["order"]), f["order"]):
@@ -458,10 +476,23 @@ class Consumer:
         reference = compiled_reference(e) if compiled else None
         spec = e["cons"]
         make = None if compiled else builder(spec, e.get("cons_shared", False))
-        for proto, groups in rec["pickles"].items():
-            for data, phists in groups:
+        # merge identical bytes across producers: {proto: {bytes: [(pcfg, phists), ...]}}
+        merged = {}
+        for pc, rec in recs.items():
+            got = False
+            for proto, groups in rec["pickles"].items():
+                m = merged.setdefault(proto, {})
+                for data, phists in groups:
+                    m.setdefault(data, []).append((pc, phists))
+                    got = True
+            if got and count:
+                self.consumed.append((pc, e["name"]))
+        for proto in sorted(merged):
+            for data, sources in merged[proto].items():
                 counters["pickles_distinct"] += 1
-                counters["producer_histories_covered"] += len(phists)
+                counters["pair_pickles_covered"] += len(sources)
+                counters["producer_histories_covered"] += sum(len(ph) for _, ph in sources)
+                counters["pair_histories_covered"] += len(orders) * len(sources)
                 counters["states"] += nstates
                 for order in orders:
                     if compiled:
@@ -471,7 +502,7 @@ class Consumer:
                     counters["histories"] += 1
                     counters["transitions"] += n
                     if bad:
-                        fail(bad[0], bad[1], proto, phists, order)
+                        fail(bad[0], bad[1], proto, sources, order)
         if compiled:
             return fails
         # ---- persistent digests ---------------------------------------------------------------
@@ -491,35 +522,39 @@ class Consumer:
             fail(f"raises:digest:{exc_name(ex)}", repr(ex)[:200])
             return fails
         unpickled = []
-        for proto, groups in rec["pickles"].items():
-            for data, phists in groups:
+        for proto in sorted(merged):
+            for data, sources in merged[proto].items():
                 try:
                     du = digests(pickle.loads(data))
                 except RecursionError:
                     raise
                 except Exception as ex:  # noqa: BLE001
                     du = {k: ["err", "unpickle:" + exc_name(ex)] for k in ("walk", "kb")}
-                unpickled.append((proto, phists, du))
-        for k in ("walk", "kb"):
-            counters["digests"] += 4 + len(unpickled)
-            want = rec["digests"][k]
-            if dl[k] != want:
-                kind = f"digest-variant:{k}:{e['variant']}" if e["family"] == "variant" \
-                    else f"digest-config:{k}"
-                fail(kind, f"producer ({self.pcfg}) digest {want}, consumer ({self.cfg}) digest "
-                           f"{dl[k]}")
+                unpickled.append((proto, sources, du))
+        is_variant = e["family"] == "variant"
+        kinds = P.VARIANT_DIGESTS.get(e.get("variant"), ("walk", "kb")) if is_variant \
+            else ("walk", "kb")
+        for k in kinds:
+            counters["digests"] += 4 + len(unpickled) + len(recs)
+            for pc, rec in recs.items():
+                want = rec["digests"][k]
+                if dl[k] != want:
+                    kind = f"digest-variant:{k}:{e['variant']}" if is_variant \
+                        else f"digest-config:{k}"
+                    fail(kind, f"producer ({pc}) digest {want}, consumer ({self.cfg}) digest "
+                               f"{dl[k]}", pcfg=pc)
             if d2[k] != dl[k] or d2h[k] != dl[k]:
                 fail(f"digest-unstable:{k}", f"{dl[k]} then {d2[k]} / {d2h[k]} on the same "
                                              "object")
             if d3[k] != dl[k]:
                 fail(f"digest-clone:{k}", f"{dl[k]} vs {d3[k]} for a fresh clone")
-            if e["family"] == "variant":
+            if is_variant:
                 continue        # unpickled is the base form: covered by digest-variant
-            for proto, phists, du in unpickled:
+            for proto, sources, du in unpickled:
                 if du[k] != dl[k]:
                     fail(f"digest-unpickled:{k}",
                          f"digest of the unpickled expression {du[k]}, of the local one {dl[k]}",
-                         proto, phists)
+                         proto, sources)
         return fails
 
     def simpler(self, e):
@@ -536,25 +571,23 @@ class Consumer:
 
     def attributed_to(self, e, kind):
         for c in self.simpler(e):
-            if c["name"] in self.prod and kind in self.evaluate(c, count=False):
+            if self.has(c["name"]) and kind in self.evaluate(c, count=False):
                 return c["name"]
         return None
 
 
-def consume(tier, cfg, pcfg, ddir, sel="all"):
+def consume(tier, cfg, pcfgs, ddir, sel="all"):
+    """pcfgs: comma-separated producer configurations whose files are in *ddir*."""
     verify_config(cfg)
-    with open(os.path.join(ddir, f"prod-{pcfg}.pkl"), "rb") as fh:
-        prod = pickle.load(fh)
-    cons = Consumer(tier, cfg, pcfg, prod)
+    prods = {}
+    for pc in pcfgs.split(","):
+        with open(os.path.join(ddir, f"prod-{pc}.pkl"), "rb") as fh:
+            prods[pc] = pickle.load(fh)
+    cons = Consumer(tier, cfg, prods)
     out = []
     attributed = 0
-    consumed = []
     for e in select(P.pool(tier), sel):
-        before = cons.counters["pickles_distinct"]
-        found = cons.evaluate(e)
-        if cons.counters["pickles_distinct"] > before:
-            consumed.append(e["name"])
-        for kind, f in found.items():
+        for kind, f in cons.evaluate(e).items():
             if is_complex(e, cons.by_name) and not sel.startswith("entry:"):
                 to = cons.attributed_to(e, kind)
                 if to is not None:
@@ -563,15 +596,16 @@ def consume(tier, cfg, pcfg, ddir, sel="all"):
             f = dict(f)
             f["protos"] = sorted(f["protos"])
             f["phists"] = sorted(f["phists"])
+            f["pcfgs"] = sorted(f["pcfgs"], key=pcfgs.split(",").index)
             f["order"] = list(f["order"]) if f["order"] else None
             f["n_orders"] = len(orders_for(e)[0])
             out.append(f)
     cons.counters["attributed_to_simpler_entry"] = attributed
     import vf.usercls_gen as ucls
-    report = dict(cfg=cfg, pcfg=pcfg, counters=cons.counters, fails=out, str_hash=hash("x"),
-                  consumed=consumed, broken_user_classes=dict(getattr(ucls, "BROKEN", {})))
-    tag = sel.replace(":", "_")
-    with open(os.path.join(ddir, f"cons-{pcfg}--{cfg}--{tag}.json"), "w") as fh:
+    report = dict(cfg=cfg, pcfgs=pcfgs.split(","), counters=cons.counters, fails=out,
+                  str_hash=hash("x"), consumed=cons.consumed,
+                  broken_user_classes=dict(getattr(ucls, "BROKEN", {})))
+    with open(os.path.join(ddir, f"cons-{cfg}.json"), "w") as fh:
         json.dump(report, fh)
 
 # }}}
